@@ -176,3 +176,23 @@ pub fn prepare_msg_encoding(dst_v6: bool, mapped: bool, dst: [u8; 4], port: u16,
     assert!(it.next().is_none());
     w
 }
+
+/// Native replay body of E2 query `e2_gso_probe_leaves_socket_clean` (C19): after a socket has been
+/// set up (which probes for GSO support), the socket-wide UDP_SEGMENT option is off, so a transmit
+/// without a UDP_SEGMENT control message is never cut into segments by the kernel.  Real socket.
+#[cfg(any(target_os = "linux", target_os = "android"))]
+pub fn gso_probe_native(_x: u8) -> u32 {
+    use std::os::fd::AsRawFd;
+    let sock = std::net::UdpSocket::bind("127.0.0.1:0").expect("loopback socket");
+    let state = UdpSocketState::new((&sock).into()).expect("socket state");
+    let mut val: libc::c_int = -1;
+    let mut len = core::mem::size_of::<libc::c_int>() as libc::socklen_t;
+    let rc = unsafe { libc::getsockopt(sock.as_raw_fd(), libc::SOL_UDP, libc::UDP_SEGMENT, &mut val as *mut _ as *mut _, &mut len) };
+    if rc != 0 {
+        // kernel without UDP_SEGMENT: nothing can have been left behind
+        assert!(state.max_gso_segments() == 1);
+        return 2;
+    }
+    assert!(val == 0, "socket-wide UDP_SEGMENT left at {} after the GSO probe", val);
+    1
+}
